@@ -3,7 +3,10 @@ package core
 import (
 	"os"
 
+	"github.com/jsightapi/jsight-schema-go-library/fs"
+
 	"github.com/jsightapi/jsight-api-go-library/catalog"
+	"github.com/jsightapi/jsight-api-go-library/directive"
 	"github.com/jsightapi/jsight-api-go-library/internal/verifrt"
 )
 
@@ -16,6 +19,11 @@ func VerifH_Determinism() {
 	menu := verifMenuMacroSmall
 	if verifrt.Bound("MENU") == 0 {
 		menu = verifMenuMacro
+	}
+	if verifrt.Bound("MENU") == 2 {
+		// generated examples: a regex type with several matches, embedded in the example of an object that
+		// refers to it (real schema library, regex example generator, math/rand; the clock moves between runs)
+		menu = []int{tTypeRegex, tGetPath, tRespObjRef, tTypeObj}
 	}
 	text, _ := verifDocLines(menu, k, true)
 	verifrt.Note("doc", text)
@@ -138,5 +146,42 @@ func VerifH_CrossProjectInclude() {
 		verifrt.Assert("C03.crossinc.same-catalog", same)
 		verifrt.Assert("C16.crossinc.same-catalog", same)
 		verifrt.Reach("C03.crossinc.accepted", true)
+	}
+}
+
+// VerifH_SharedOptions (C16, "all per-parse state hangs off JApiCore"): an
+// Option value is plain data a caller may keep and hand to any number of
+// NewJApiCore calls. Project B created with the reused option gives the result it
+// gives with a fresh option of the same content - whatever other project A was
+// created before with the reused option followed by a second option.
+func VerifH_SharedOptions() {
+	k := verifrt.Bound("K")
+	menu := []int{tServer, tTag, tTypeAny, tGetPath, tInfo}
+	textB, _ := verifDocLines(menu, k, true)
+	textA, _ := verifDocLines(menu, 1, true)
+	pick := func(name string) directive.Enumeration {
+		return refKind(menu[verifrt.Choice(name, len(menu))])
+	}
+	b1, b2 := pick("banned-by-reused-option"), pick("banned-by-second-option")
+	verifrt.Note("B", textB)
+	verifrt.Note("A", textA)
+	verifrt.Note("reused", b1.String())
+	verifrt.Note("second", b2.String())
+	reused := WithBannedDirectives(b1)
+	coreA := NewJApiCore(fs.NewFile(verifDir+"/a.jst", textA), reused, WithBannedDirectives(b2))
+	_ = coreA.ValidateJAPI()
+	core1 := NewJApiCore(fs.NewFile(verifDir+"/b.jst", textB), reused)
+	je1 := core1.ValidateJAPI()
+	core0 := NewJApiCore(fs.NewFile(verifDir+"/b.jst", textB), WithBannedDirectives(b1))
+	je0 := core0.ValidateJAPI()
+	verifrt.Assert("C16.options.same-verdict", (je0 == nil) == (je1 == nil))
+	if je0 != nil && je1 != nil {
+		verifrt.Assert("C16.options.same-diagnostic", je0.Msg == je1.Msg && je0.Index() == je1.Index())
+		verifrt.Reach("C16.options.rejected", true)
+		return
+	}
+	if je0 == nil && je1 == nil {
+		verifrt.Assert("C16.options.same-catalog", verifSameSig(verifSig(core0.catalog), verifSig(core1.catalog)))
+		verifrt.Reach("C16.options.accepted", true)
 	}
 }
